@@ -129,7 +129,7 @@ def apply_rewrite(ctx, g, poly, rng, L, label_hist):
         else:
             base = {'same-range': min(g.nodes.keys()), 'offset': min(g.nodes.keys()) + 1, 'disjoint': max(g.nodes.keys()) + 50,
                     'swapped-terminal-ids': max(g.nodes.keys()) + 50, 'fully-disjoint-ids': max(g.nodes.keys()) + 50}[collide]
-            h = gen.rand_graph(rng, L, idbase=int(base), maxw=3, nops=3, charges=False)
+            h = gen.rand_graph(rng, L, idbase=int(base), maxw=3, nops=3, charges=False, pool=getattr(ctx, 'pool', None))
             if collide == 'swapped-terminal-ids':
                 # the other graph's terminals carry this graph's terminal ids in exchanged order
                 t0, t1 = h.nid_terminal
@@ -172,7 +172,9 @@ def apply_rewrite(ctx, g, poly, rng, L, label_hist):
 def history_case(ctx, idx, rng):
     L = int(rng.integers(1, 7))
     charges = bool(rng.random() < 0.5)
-    g = gen.rand_graph(rng, L, idbase=int(rng.integers(0, 4)), maxw=4 if rng.random() < 0.3 else 3, nops=3, charges=charges)
+    pool = gen.OID_POOLS[int(rng.integers(0, len(gen.OID_POOLS)))]
+    ctx.pool = pool
+    g = gen.rand_graph(rng, L, idbase=int(rng.integers(0, 4)), maxw=4 if rng.random() < 0.3 else 3, nops=3, charges=charges, pool=pool)
     poly, depth = refs.graph_poly(g)
     hist = []
     nsteps = int(rng.integers(1, 9))
@@ -189,13 +191,14 @@ def history_case(ctx, idx, rng):
             raise CaseAbort()
         poly = exp
         ctx.event('rewrite:' + hist[-1].split('-')[0])
-    ctx.case(('rewrites', f'L{min(L, 4)}', 'charged' if charges else 'uncharged') + tuple(hist), nontrivial=len(hist) >= 1,
+    ctx.case(('rewrites', f'L{min(L, 4)}', 'charged' if charges else 'uncharged', 'ids-default' if pool is None else f'ids{pool}') + tuple(hist), nontrivial=len(hist) >= 1,
              sample={'L': L, 'history': hist})
 
 
 def chains_then_rewrites(ctx, idx, rng):
     """Rewrites on graphs produced by the repository's own constructors (from_opchains)."""
     L = int(rng.integers(1, 6))
+    ctx.pool = None
     chains = [gen.rand_chain(rng, L, nops=2, charges=False) for _ in range(int(rng.integers(1, 10)))]
     g = ptn.OpGraph.from_opchains(chains, L, 0)
     poly = refs.chains_poly(chains, L, 0)
